@@ -227,4 +227,10 @@ def build(S, tier):
         S.adopt(p, prefix="[composite]post:")
     if not any(q.status == "unsupported" for q in paths):
         S.prove(f"{label}#cover.return_paths", nret >= 4, kind="cover", why=f"{nret} complete paths")
+    # ------------------------------------------------------------------ the candidate list stays "the non-negative labels" when atoms come and go
+    # (the selection clauses above start from a freshly constructed move; an exchange notifies the move of new / removed atoms)
+    from contracts import C05
+    n0 = len(S.obligations)
+    C05.build(S, tier, parts=("labels",))
+    S.prove("candidates_after_atom_count_changes#cover.label_contract_of_on_atoms_changed_rechecked", len(S.obligations) - n0 >= 20, kind="cover", why=str(len(S.obligations) - n0))
     return meta
